@@ -344,6 +344,11 @@ def make_interp(contracts=None):
     return ip
 
 
+def _host_actual(dotted):
+    import sys
+    return {"sys.byteorder": sys.byteorder}.get(dotted)
+
+
 class UnitBudget(BaseException):
     """raised by the CPU-time alarm inside a path that alone exceeds the unit budget (BaseException: not swallowed by the
     `except Exception` clauses of witness / concretisation code)"""
@@ -403,6 +408,9 @@ def run_unit(args):
                         w = unit.witness(ctx, m)
                         if TRUNCATED[0]:
                             w = None          # the path needs an input longer than what is replayed natively
+                        hc = getattr(ctx, "_hostchoices", None)
+                        if hc and any(v != _host_actual(k) for k, v in hc.items()):
+                            w = None          # the path assumes another host than the one the natives run on
                         if w is not None:
                             w["path"] = out["paths"]
                             out["witnesses"].append(w)
